@@ -123,7 +123,11 @@ type Scenario struct {
 	QueueLen        int           // override of upgrader.AcceptQueueLength (0: default)
 	CloseListenerAt time.Duration // >0: the listener is closed at this (virtual) time
 	ForcePNet       bool          // ipnet.ForcePrivateNetwork = true
+	NilPeer         bool          // the dialling side calls Upgrade with an empty expected peer (refused with ErrNilPeer)
 }
+
+// nilPeerDial: set for the duration of a run of a NilPeer scenario (runs are sequential within a process).
+var nilPeerDial bool
 
 var Scenarios = map[string]Scenario{
 	// upgrade both ends, one yamux stream, echo, close both connections, close the listener
@@ -138,6 +142,9 @@ var Scenarios = map[string]Scenario{
 	"queued-lnclose": {NConns: 2, AcceptAfter: -1, CloseListenerAt: 5 * time.Second},
 	// private networks forced by the environment, no PSK configured
 	"forcepnet": {NConns: 1, ForcePNet: true},
+	// an outbound upgrade without an expected peer: refused before anything is negotiated - the raw connection that was
+	// handed to Upgrade must still be closed
+	"nilpeer": {NConns: 1, NilPeer: true},
 }
 
 // ---------- result of one run ----------
@@ -252,6 +259,9 @@ func MirrorDial(ctx context.Context, e *Env, a *Attempt) (transport.CapableConn,
 		raw, err := e.RawDial(ctx, a)
 		if err != nil {
 			return nil, err
+		}
+		if nilPeerDial {
+			return e.Out.Upgrader.Upgrade(ctx, StubTransport{}, raw, network.DirOutbound, "", connScope)
 		}
 		return e.Out.Upgrader.Upgrade(ctx, StubTransport{}, raw, network.DirOutbound, e.In.ID, connScope)
 	}()
@@ -501,6 +511,10 @@ func runInBubble(cs Case, res *Result, dial DialFunc) {
 		old := upgrader.AcceptQueueLength
 		upgrader.AcceptQueueLength = scn.QueueLen
 		defer func() { upgrader.AcceptQueueLength = old }()
+	}
+	if scn.NilPeer {
+		nilPeerDial = true
+		defer func() { nilPeerDial = false }()
 	}
 	if scn.ForcePNet {
 		ipnet.ForcePrivateNetwork = true
@@ -884,6 +898,9 @@ func runInBubble(cs Case, res *Result, dial DialFunc) {
 			key := "raw-conn-not-closed/" + e.side
 			if scn.ForcePNet {
 				key = "raw-conn-not-closed/force-pnet"
+			}
+			if scn.NilPeer {
+				key = "raw-conn-not-closed/nil-peer"
 			}
 			h.Vio(key, "attempt %d: the %s side never called Close on its raw connection %s (I/O calls seen: %d %q; outbound stage %s)",
 				i, e.side, e.c.Name(), e.c.Ops(), e.c.Kinds(), a.stage)
